@@ -2,8 +2,10 @@
    Scalars: any type with add / mul (the theorems need no algebraic law: sums are the left folds the code performs,
    so they also describe the floating-point evaluation order); entry_sum a b k i j = sum over t < k of a[i,t]*b[t,j].
    matmul22 false = the specified product; matmul22 true = the repository's (extra comparison rows(a) = cols(b),
-   pinned by its test_linalg_dot case 15): sound whenever it answers, refuted on [n,k] x [k,p] with n <> p (F15). *)
-From ArrRs Require Import Index Axis Linalg Linalg_proofs.
+   pinned by its test_linalg_dot case 15): sound whenever it answers, refuted on [n,k] x [k,p] with n <> p (F15).
+   STACKS: C14_matmul_stacks — for equally long stacks [s,n,k] x [s,k,n] block t of the product is the matrix product
+   of block t of each operand (the split into blocks, the pairwise products and the re-assembly are inside the theorem). *)
+From ArrRs Require Import Index Axis Linalg Linalg_proofs Matstack_proofs.
 
 Theorem C14_matmul22 : forall (T : Type) (zero : T) (add mul : T -> T -> T) (strict : bool) (a b : arr T) n k p,
   shape a = [n; k] -> shape b = [k; p] -> (strict = true -> n = p) ->
@@ -45,6 +47,14 @@ Theorem C14_outer : forall (T : Type) (zero : T) (mul : T -> T -> T) (a b : arr 
   exists r, outer mul a b = Ok r /\ shape r = [len a; len b] /\
     forall i j, i < len a -> j < len b -> get zero r [i; j] = mul (nth i (elems a) zero) (nth j (elems b) zero).
 Proof. exact @outer_spec. Qed.
+
+Theorem C14_matmul_stacks : forall (T : Type) (zero : T) (add mul : T -> T -> T) (strict : bool) (a b : arr T) s n k,
+  wf a -> wf b -> shape a = [s; n; k] -> shape b = [s; k; n] -> 0 < s -> 0 < n -> 0 < k ->
+  exists R, matmul zero add mul strict a b = Ok R /\ shape R = [s; n; n] /\ wf R /\
+    forall t i j, t < s -> i < n -> j < n ->
+      get zero R [t; i; j] =
+      fold_left (fun acc u => add (mul (get zero a [t; i; u]) (get zero b [t; u; j])) acc) (seq 0 k) zero.
+Proof. exact @matmul_stack_spec. Qed.
 
 Example C14_nonvacuous :
   matmul22 0%Z Z.add Z.mul true (mk [1;2;3;4;5;6]%Z [2;3]) (mk [1;2;3;4;5;6]%Z [3;2]) = Ok (mk [22;28;49;64]%Z [2;2]) /\
